@@ -35,7 +35,8 @@ TAU = 1e-8
 
 def gen_case(rng, cfg, idx):
     for _ in range(10):
-        b, base, n_inplace = gen_history(rng, nstmts=cfg["nstmts"], int_prob=0.0, nonconst_only=True, setshape_w=0.3)
+        b, base, n_inplace = gen_history(rng, nstmts=cfg["nstmts"], int_prob=0.0, nonconst_only=True, setshape_w=0.3,
+                                         const_kw_prob=0.45 if idx % 5 == 4 else 0.0, cv_as_targets=True, layer_reads=True)
         L = add_readout(b, rng)
         if L is None:
             continue
@@ -71,10 +72,17 @@ def run_case(case):
     sh = Shadow(prog)
     cnt, viol, sets = {}, [], {}
     start = 0
+    const_view_writes = []
+    viol_ep, last_grads, last_names, last_M = [], {}, [], 0.0
     for ep, bw in enumerate(bws):
         try:
             for i in range(start, bw + 1):
-                it.exec(i, prog[i])
+                st_ = prog[i]
+                if st_["k"] in ("setitem", "aug", "uout") and mgrun.is_tensor(it.env.get(st_["tgt"])):
+                    tg = it.env[st_["tgt"]]
+                    if tg.constant and tg.base is not None and not tg.base.constant:
+                        const_view_writes.append(i)
+                it.exec(i, st_)
         except Exception as e:
             return {"viol": [{"monitor": "mg-raised", "mech": f"mg-raises:{type(e).__name__}", "msg": f"stmt {i} (epoch {ep}): {type(e).__name__}: {e}"}]}
         used = set()
@@ -98,7 +106,10 @@ def run_case(case):
                 return {"viol": [{"monitor": "O-np", "mech": "epoch2-forward-mismatch",
                                  "msg": f"after the backward at stmt {bw} (epoch {ep}) tensor {n} holds values that differ from the NumPy program's"}]}
         names = [n for n, v in it.env.items() if mgrun.is_tensor(v) and not v.constant and v.dtype.kind == "f" and n in sh.owner
-                 and not n.startswith(("m", "s", "L")) and (ep == 0 or n in used)]
+                 and not n.startswith(("m", "s", "L")) and (ep == 0 or n in used)
+                 # a non-constant view of memory owned by a CONSTANT tensor: reads made through the constant owner transmit nothing
+                 # (C10), which the owner-injection rule cannot tell apart - not judged here
+                 and not (mgrun.is_tensor(it.env.get(sh.owner[n])) and it.env[sh.owner[n]].constant)]
         stale_ok = ()
         if ep > 0:
             # survivors whose gradient was not nulled at the boundary (and views made of them) keep that stale gradient unless the new
@@ -109,7 +120,10 @@ def run_case(case):
             stale_ok = {n for n in names if sh.owner.get(n) in keepers}
             cnt["epoch2_judged_tensors"] = cnt.get("epoch2_judged_tensors", 0) + len(names)
             cnt["epoch2_inplace_stmts"] = cnt.get("epoch2_inplace_stmts", 0) + sum(1 for st in prog[start:bw + 1] if st["k"] in ("setitem", "aug", "uout"))
+        last_grads, last_names, last_M = grads, names, M
         v1, c1 = check_grads(prog, (), sh, grads, bw, names, rng, tau=TAU, M=M, full_upto=3, nrand=1, stale_ok=stale_ok)
+        if v1:
+            viol_ep = [bw]
         for k, x in c1.items():
             cnt[k] = cnt.get(k, 0) + x
         if ep > 0:
@@ -120,6 +134,22 @@ def run_case(case):
         if viol:
             break
         start = bw + 1
+    if const_view_writes:
+        cnt["const_view_writes"] = len(const_view_writes)
+    if viol and const_view_writes and all(v.get("monitor") == "O-fd" for v in viol) and not case.get("_probe"):
+        # mechanism probe for the known finding: the mis-judged gradients are exactly those of the program in which the PREVIOUS CONTENTS
+        # of the region each constant-view write covers are constants (finite differences with that region reset to its unperturbed values
+        # right before the write): re-judge every tensor against that reference
+        from mgverif.oracle import FD as _FD
+        try:
+            fdb = _FD(prog, (), blocks=set(const_view_writes))
+            v2, _ = check_grads(prog, (), sh, last_grads, bws[len(bws) - 1] if not viol_ep else viol_ep[0], last_names, random.Random(case.get("cseed", 0)),
+                                tau=TAU, M=last_M, full_upto=3, nrand=1, fd=fdb)
+            if not v2:
+                for v in viol:
+                    v["const_view_write"] = True
+        except Exception:
+            pass
     cnt["fd_skipped"] = cnt.get("fd_kink", 0) + cnt.get("fd_illcond", 0)
     kinds = [st["k"] + ":" + str(st.get("fn") or st.get("op") or "") for st in prog if st["k"] in ("setitem", "aug", "uout", "setshape")]
     cnt["inplace_stmts"] = sum(1 for st in prog if st["k"] in ("setitem", "aug", "uout"))
@@ -129,3 +159,25 @@ def run_case(case):
     sets["opclasses"] = sorted(REG.opclasses)
     return {"viol": viol[:4], "counters": cnt, "sets": sets, "sig": mgrun.struct_sig(prog),
             "nontrivial": cnt["inplace_stmts"] >= 1 and cnt.get("fd_dirs", 0) >= 3}
+
+
+def classify(v, case):
+    m = v.get("mech") or v["monitor"]
+    if v.get("const_view_write"):
+        return "write-through-constant-view-drops-untouched-gradient"
+    return m
+
+
+def witness_cases():
+    A = lambda v: ["a", "float64", [len(v)], v]
+    return [{"L": "L", "cseed": 1, "bws": [9], "prog": [
+        {"k": "leaf", "out": "x0", "kind": "tensor", "dtype": "float64", "shape": [6], "data": [1.0, 2.0, 3.0, 4.0, 5.0, 6.0], "constant": None, "layout": "C"},
+        {"k": "leaf", "out": "y", "kind": "tensor", "dtype": "float64", "shape": [3], "data": [10.0, 20.0, 30.0], "constant": None, "layout": "C"},
+        {"k": "call", "out": "b", "fn": "multiply", "a": [["r", "x0"], 1.5], "sp": "mg"},
+        {"k": "call", "out": "cv", "fn": "reshape", "a": [["r", "b"], ["t", [2, 3]]], "kw": {"constant": True}, "sp": "mg"},
+        {"k": "call", "out": "v2", "fn": "multiply", "a": [["r", "y"], 2.0], "sp": "mg"},
+        {"k": "setitem", "tgt": "cv", "index": 1, "value": ["r", "v2"]},
+        {"k": "call", "out": "m", "fn": "multiply", "a": [["r", "b"], A([1.0, 2.0, 3.0, 4.0, 5.0, 6.0])], "sp": "mg"},
+        {"k": "call", "out": "s", "fn": "sum", "a": [["r", "m"]], "sp": "mg"},
+        {"k": "call", "out": "L", "fn": "positive", "a": [["r", "s"]], "sp": "mg"},
+        {"k": "backward", "tgt": "L", "seed": None}]}]
